@@ -6,7 +6,7 @@ import SciVerif.Tie.Pins
 /-! Tie A obligations for C11 on the current source. -/
 namespace SciVerif.Tie
 -- functions the model relies on without an obligation of its own naming them (pinned by bin/mkpins):
--- PIN-ALSO: Scipipe.Task_Execute Scipipe.Task_anyOutputsExist Scipipe.FileIP_SetAuditInfo Scipipe.FileIP_WriteAuditLogToFile
+-- PIN-ALSO: Scipipe.Task_Execute Scipipe.Task_anyOutputsExist Scipipe.FileIP_SetAuditInfo Scipipe.FileIP_WriteAuditLogToFile Scipipe.FileIP_UnMarshalJSON
 open SciVerif.Generated
 
 /-- a file found on disk gets its record from its audit file: `NewFileIP` loads it when the file
@@ -33,6 +33,7 @@ theorem generated_upstream_is_input_record :
     (Scipipe.Task_writeAuditLogs.any (fun a => a.kind == .assign_ && a.name == "auditInfo.Upstream[iip.Path()]" && a.args == ["iip.AuditInfo()"])) = true := by decide
 
 
+
 -- BEGIN PINS (written by bin/mkpins; do not edit by hand)
 /-- the Go functions this property's model and obligations were written against have exactly the
 pinned skeletons (SHA-256 prefix of the atom list) -/
@@ -40,6 +41,7 @@ theorem pinned_skeletons_c11 :
     pinsOk
     [("Scipipe.FileIP_AuditInfo", "5adb309a1fd92bb2"),
      ("Scipipe.FileIP_SetAuditInfo", "9888139e5f6ebe46"),
+     ("Scipipe.FileIP_UnMarshalJSON", "53871f3581412391"),
      ("Scipipe.FileIP_WriteAuditLogToFile", "4600f6f7f2efa41b"),
      ("Scipipe.NewFileIP", "5736f17570081214"),
      ("Scipipe.Task_Execute", "40fd1fec0c69deb2"),
